@@ -27,7 +27,8 @@ const PROPS = ['color', 'background-color', 'margin-top', 'margin-right', 'margi
   'font-size', 'font-weight', 'font-style', 'font-family', 'line-height', 'font-variant-caps', 'font-stretch', 'opacity', 'z-index', 'transform', 'transition-property', 'transition-duration', 'transition-delay', 'transition-timing-function',
   'list-style-type', 'list-style-position', 'background-image', 'background-position-x', 'background-position-y', 'background-size', 'background-repeat', 'outline-color', 'outline-width', 'outline-style', 'text-decoration-line', 'text-decoration-color',
   'letter-spacing', 'box-shadow', 'animation-name', 'animation-duration', 'content', 'flex-grow', 'flex-shrink', 'flex-basis', 'gap', 'column-gap', 'row-gap', 'grid-template-columns', 'inset-inline-start', 'margin-inline-start', 'aspect-ratio', 'accent-color', 'caret-color', 'fill', 'stroke',
-  '--v1', '--v2', '--v3', 'clip-path', 'filter', 'text-shadow', 'overflow-x', 'overflow-y', 'visibility', 'cursor', 'white-space', 'text-align', 'vertical-align', 'border-collapse', 'scroll-margin-top', 'tab-size', 'text-indent', 'word-spacing', 'rotate', 'scale', 'translate'];
+  '--v1', '--v2', '--v3', 'clip-path', 'filter', 'text-shadow', 'overflow-x', 'overflow-y', 'visibility', 'cursor', 'white-space', 'text-align', 'vertical-align', 'border-collapse', 'scroll-margin-top', 'tab-size', 'text-indent', 'word-spacing', 'rotate', 'scale', 'translate',
+  'appearance', 'backdrop-filter', 'background-clip', 'box-decoration-break', 'font-kerning', 'hyphens', 'mask-image', 'mask-size', 'mask-repeat', 'print-color-adjust', 'text-emphasis-style', 'text-orientation', 'text-size-adjust', 'user-select', 'min-height', 'max-height'];
 
 
 // Colour normal form: every colour function in a computed value is converted by Chrome itself to sRGB
